@@ -75,6 +75,7 @@ type Engine struct {
 	inlineDepthLimit int
 	nocheck   bool
 	ghostDepth int
+	dispatchDepth int
 	pendingFacts []*Term
 	foldDone  map[*Term]bool
 	foldUnfold map[string]func(t *Term)
@@ -1391,6 +1392,17 @@ func (e *Engine) execBlock(fr *Frame, st *State, b *ssa.BasicBlock, bo *blockOrd
 			e.execInstr(fr, st, ins)
 			if st.cond.IsFalse() {
 				st.dead = true
+			}
+			if st.dead {
+				// the rest of the block is unreachable
+				for _, s := range b.Succs {
+					if !bo.back[[2]*ssa.BasicBlock{b, s}] {
+						d := st.clone()
+						d.dead = true
+						fr.edge[[2]*ssa.BasicBlock{b, s}] = d
+					}
+				}
+				return
 			}
 		}
 	}
